@@ -45,6 +45,12 @@ func encodeValue(e uri.Encoder, v Value) error {
 				return errors.Wrapf(err, "encode field %q", f.K)
 			}
 		}
+		for _, u := range v.Unset {
+			// optional property without a value: `if val, ok := s.K.Get(); ok {...}; return nil`
+			if err := e.EncodeField(u, func(e uri.Encoder) error { return nil }); err != nil {
+				return errors.Wrapf(err, "encode field %q", u)
+			}
+		}
 		return nil
 	}
 }
@@ -53,7 +59,7 @@ var errRequired = errors.New("field required")
 
 // decodeValue = template "uri/decode" (+ DecodeURI). declared = property
 // names of the struct type (nil for a map type).
-func decodeValue(d uri.Decoder, kind string, isMap bool, declared []string) (Value, error) {
+func decodeValue(d uri.Decoder, kind string, isMap bool, declared []decl) (Value, error) {
 	switch kind {
 	case "prim":
 		val, err := d.DecodeValue()
@@ -101,8 +107,8 @@ func decodeValue(d uri.Decoder, kind string, isMap bool, declared []string) (Val
 	}
 	got := make([]*string, len(declared))
 	err := d.DecodeFields(func(k string, d uri.Decoder) error {
-		for i, name := range declared {
-			if k == name {
+		for i, dc := range declared {
+			if k == dc.Name {
 				val, err := d.DecodeValue()
 				if err != nil {
 					return errors.Wrapf(err, "decode field %q", k)
@@ -118,9 +124,12 @@ func decodeValue(d uri.Decoder, kind string, isMap bool, declared []string) (Val
 	}
 	for i, g := range got {
 		if g == nil {
-			return out, errors.Wrapf(errRequired, "field %q", declared[i])
+			if declared[i].Required {
+				return out, errors.Wrapf(errRequired, "field %q", declared[i].Name)
+			}
+			continue
 		}
-		out.Fields = append(out.Fields, KV{declared[i], *g})
+		out.Fields = append(out.Fields, KV{declared[i].Name, *g})
 	}
 	return out, nil
 }
@@ -140,11 +149,17 @@ type Trip struct {
 	Received  string `json:"received,omitempty"` // what the server side handed to the decoder
 }
 
+// decl is one declared property of a struct parameter.
+type decl struct {
+	Name     string
+	Required bool
+}
+
 func kindOf(shape string) (kind string, isMap bool) {
 	switch shape {
 	case "array-string", "array-integer":
 		return "array", false
-	case "object":
+	case "object", "object-optional", "object-empty":
 		return "object", false
 	case "map":
 		return "object", true
@@ -152,15 +167,23 @@ func kindOf(shape string) (kind string, isMap bool) {
 	return "prim", false
 }
 
-func declaredOf(c Combo, v Value) []string {
-	if c.Shape != "object" {
-		return nil
+// declaredOf: the property list of the struct type the value belongs to.
+// "object": every member is a required property; "object-optional": members
+// and unset names are optional properties; "object-empty": no properties.
+func declaredOf(c Combo, v Value) []decl {
+	switch c.Shape {
+	case "object", "object-optional":
+		req := c.Shape == "object"
+		out := make([]decl, 0, len(v.Fields)+len(v.Unset))
+		for _, f := range v.Fields {
+			out = append(out, decl{f.K, req})
+		}
+		for _, u := range v.Unset {
+			out = append(out, decl{u, false})
+		}
+		return out
 	}
-	names := make([]string, len(v.Fields))
-	for i, f := range v.Fields {
-		names[i] = f.K
-	}
-	return names
+	return nil
 }
 
 var baseURL = &url.URL{Scheme: "http", Host: "h"}
@@ -340,7 +363,7 @@ func roundTrip(c Combo, name string, v Value) (t Trip) {
 			if c.FieldsCfg {
 				cfg.Fields = make([]uri.QueryParameterObjectField, len(declared))
 				for i, n := range declared {
-					cfg.Fields[i] = uri.QueryParameterObjectField{Name: n, Required: true}
+					cfg.Fields[i] = uri.QueryParameterObjectField{Name: n.Name, Required: n.Required}
 				}
 			}
 			if err = q.HasParam(cfg); err == nil {
